@@ -41,3 +41,24 @@ def thrHandler : Handler := fun _ rhs =>
   | _ => .error "arity"
 
 end UVerif.Driver
+
+namespace UVerif.Driver
+
+/-- `hist <family> <cfg…> <bt> <ops…> => <bits> <eq> <ne> <lt> <gt> <stale>` (C06 history clause): after an arbitrary operation
+    history, x must compare equal to a fresh object holding the same nbits-bit pattern, and its storage must have no bit at or
+    above nbits. The operators themselves are modelled and judged by C07/C08; here the model echoes the transcript and only the
+    spec predicate judges. Known: D7 — blockbinary/fixpnt `<<=` never masks the top block (class requires a `shl` in the
+    history AND stale storage bits, so any other way of breaking equality is still reported). -/
+def histHandler : Handler := fun lhs rhs =>
+  match rhs with
+  | [b, eq, ne, lt, gt, stale] =>
+    let ok := eq == "1" && ne == "0" && lt == "0" && gt == "0" && stale == "0"
+    let fam := lhs.headD ""
+    let hasShl := lhs.any (fun t => t.startsWith "shl:")
+    let cls := if fam == "fixpnt" && hasShl && stale == "1" then "hist.fixpnt.shl_in_history.stale_bits" else ""
+    .ok { model := joinToks [b, eq, ne, lt, gt, stale], specOk := ok,
+          reason := "after this operation history x does not compare equal to a fresh object with the same bit pattern (or has bits above nbits)",
+          cls := cls, tag := s!"hist/{fam}", canonical := stale == "0" }
+  | _ => .error "arity"
+
+end UVerif.Driver
